@@ -21,6 +21,7 @@ MODULE_DEPS = {
     "lock": ["path"],
     "dedupe__c20": ["path"],
     "dedupe__c07": ["dedupe", "path", "file"],
+    "dedupe__c07b": ["dedupe", "path", "file"],
 }
 
 
@@ -86,6 +87,8 @@ k("c19_acquire_after_wakeups_bounded", "semaphore::Semaphore::acquire (stubbed C
   cls="bounded", bound="at most 2 wake-ups of Condvar::wait (the unbounded loop is the Verus unit `semaphore`)")
 # ---- transform.rs
 k("c07_transform_frame", "transform::Transform::make_args + Input::prepare_input_file + Drop for Input/Output/Transform", module="transform", t=1500)
+k("c07_dedupe_script_is_pure_bounded", "dedupe::PartitionedFileGroup::dedupe_script [Move] + are_on_same_mount", module="dedupe__c07b", t=900,
+  cls="bounded", bound="one kept and one dropped file, operation `move`")
 k("c07_are_on_same_mount_is_pure", "dedupe::PartitionedFileGroup::are_on_same_mount", module="dedupe__c07", t=600)
 # ---- hasher.rs
 for _o in ("ok", "notfound", "denied", "other"):
@@ -176,7 +179,7 @@ PROPS = {
         design_ref="DESIGN.md §5 C08",
     ),
     "C07": dict(
-        kani=["c07_transform_frame", "c07_are_on_same_mount_is_pure"],
+        kani=["c07_transform_frame", "c07_are_on_same_mount_is_pure", "c07_dedupe_script_is_pure_bounded"],
         verus=[],
         prefixes=["C07."],
         category="proof",
